@@ -228,7 +228,13 @@ def r2_isnumber(rep, ctx):
     rep.check("numpy.number" in added or "numpy.number" in lits, "C09.R2", "IsNumber:numpy-number", "numpy.number is a number", "numpy scalars are not recognised as numbers: numpy.float64(2) * x falls into the quantity arm", fn=fn)
     isn = m.func("IsNumber")
     rets = [r for r in own_nodes(isn.node) if isinstance(r, ast.Return)]
-    ok = len(rets) == 1 and ast.unparse(rets[0].value).replace(" ", "") == "isinstance(v,_KNOWN_NUMBER_TYPES)"
+    ires = Resolver(m, isn)
+    TYPES = (("name", "_KNOWN_NUMBER_TYPES"), ("call", ("name", "_GetKnownNumberTypes"), (), ()))  # the memo / what fills it
+
+    def is_test(a_):
+        return a_[0] == "call" and a_[1] == ("name", "isinstance") and len(a_[2]) == 2 and not a_[3] and a_[2][0] == ("param", 0, isn.params[0]) and all(x in TYPES for x in alternatives(a_[2][1]))
+
+    ok = len(isn.params) == 1 and bool(rets) and all(all(is_test(a_) for a_ in alternatives(ires.term(r.value))) for r in rets)
     rep.check(ok, "C09.R2", "IsNumber:isinstance", "IsNumber is isinstance(v, known number types)", "IsNumber returns %s" % [ast.unparse(r.value) for r in rets], fn=isn)
 
 
